@@ -108,6 +108,8 @@ BarTimes(cf) ==
   CASE Grid = 1 -> [j \in 1 .. NH |-> 60 * (j - 1)]
     [] Grid = 3 -> SeqOfSet({60 * h : h \in RowsOf(cf)})
     [] Grid = 2 -> SeqOfSet(UNION {{60 * h, 60 * h + 1, 60 * h + 30, 60 * h + 59} : h \in Hours} \ {60 * (NH - 1) + 30, 60 * (NH - 1) + 59})
+    [] Grid = 4 -> SeqOfSet(UNION {{60 * h, 60 * h + 15, 60 * h + 30, 60 * h + 45} : h \in Hours} \ {60 * (NH - 1) + 30, 60 * (NH - 1) + 45})
+                   \* a minutely co-market RESAMPLED to 15-minute bars: the hourly book must not be up-sampled into the off-hour bars
 
 ListedAt(cf, i, t) == ~(cf.delist /\ t >= Info2(cf)[i].exp)
 Row2(cf, i, h, u) ==
